@@ -167,6 +167,17 @@ CLAIMED["C11"] = (
     "opaque; deep callees of test() whose bodies leave the supported subset (select, os/exec) are treated as opaque calls.",
     "contract-based deductive verification (function-literal contracts, call-site obligations + SMT)", "6/C11")
 
+CLAIMED["C12"] = (
+    "Proof (call-site and return-site obligations on the real Store / storeFiles / storeFile / ensureStoreReady / tarHeader / retrieveFiles) that a "
+    "cache entry is assembled only under its temporary name (<key>=) and published by one rename whose source and destination are exactly the "
+    "temporary and final names (which differ: string lemma on getFullPath's proved shape); that the final name is otherwise touched only by the "
+    "initial removal; that every file-system call of storeFile is under the directory it was given; that a stale temporary entry is removed "
+    "whole (RemoveAll) before reuse; that names inside a compressed entry are the path relative to the output directory with only the slash "
+    "stripped; and that a key that was never stored is a miss. At the granularity of file-system calls this is the crash-atomicity argument. "
+    "Kernel-only: byte-identity of restored trees (tar/gzip/hard links) and atomicity of rename(2) itself are library / OS behaviour.",
+    COMMON_NOTE + "fs.RemoveAll / RecursiveLink / os.Rename are opaque file-system calls that change no Go heap; getPath is an assumed pure function.",
+    "contract-based deductive verification (call-site / return-site obligations, called() flags + SMT)", "6/C12")
+
 NOT_APPLICABLE = {
     "C05": "liveness / whole-run exit status under all schedules: no per-call contract expresses it (safety fragment is under C04)",
     "C30": "OS process groups, signals and wall-clock bounds; goroutines and select are outside the sequential contract model",
